@@ -28,7 +28,8 @@ def install(E):
         status, resp = r
         return mkresp(e, status, resp)
     def client_get(e, a):
-        return (do_http(e, 'GET', a[0], None), None)
+        # the real parse() is executed on the response (status >= 400: error body decoded)
+        return e.call(FuncV(M + 'wallet/client.parse'), [do_http(e, 'GET', a[0], None)])
     I[M + 'wallet/client.get'] = client_get
     def client_post(e, a):
         url, ct, rd = a
